@@ -14,7 +14,7 @@ RULE = ("every sequence of length <= L (3 quick / 4 thorough on a reduced menu) 
         "(format omitted, explicit == default namespace, 'c' / 'bc' so that ('ab','c') and ('a','bc') concatenate "
         "equally, another format), delete_metadata(pid) and delete_object(pid) (pid bound or not) on pids ab / a, "
         "documents {empty, small, 5 buffers}, supplied as path / Path / file stream; plus random sequences of "
-        "length 40 over pids ab/a/abc/b/AB and the NFC / NFD spellings of 'é', 16 formats incl. pid+namespace prefix games and formats that start / end with '/', "
+        "length 40 over pids ab/a/abc/b/AB and the NFC / NFD spellings of 'é', 20 formats (incl. formats with leading / trailing / inner whitespace, which the API accepts) incl. pid+namespace prefix games and formats that start / end with '/', "
         "a quarter of them in other configurations (depth 1/2/5, width 1/3, all five algorithms). After EVERY call the "
         "metadata tree is abstracted and compared with a model keyed by (pid, effective format); every "
         "retrieve_metadata is compared byte for byte. distinct_nontrivial = distinct (model metadata keys, call "
@@ -124,7 +124,8 @@ def run_shard(mode, n, firsts, tier, sub_seed):
             rng = random.Random(sub_seed)
             pids = ["ab", "a", "abc", "b", "\u00e9", "e\u0301", "AB"]
             fmts = [None, DEFAULT_NS, "c", "bc", "f1", "b" + DEFAULT_NS, DEFAULT_NS + "x", "http://a/b?c=d#e",
-                    "http://ns.example.org/v2.0/", "/leading/slash", "f1/", "/", "%2F", "F1", "f1.", DEFAULT_NS.lower()]
+                    "http://ns.example.org/v2.0/", "/leading/slash", "f1/", "/", "%2F", "F1", "f1.", DEFAULT_NS.lower(),
+                    " f1", "f1 ", "f 1", "\tf1"]
             from ..common import STORE_ALGOS
             for k in range(n):
                 if k % 4 == 1:
